@@ -1019,6 +1019,48 @@ def judge_a_zero(inp, obs, lr):
     return None
 
 
+# ------------------------------------------------------------------------------------------------
+# S2e: values (packaging_value_independent): array_like of the same number, every packaging, explicit dtypes
+# ------------------------------------------------------------------------------------------------
+VALS = [1, 2, -3, 0.5, -0.375, 2.75, -7.5]
+
+
+def gen_values(rng, n):
+    for p in all_packs():
+        if not is_real(p):
+            continue
+        for v in VALS:
+            if is_int(p) and not float(v).is_integer():
+                continue
+            for dt in (None, "int64", "float32", "float64"):
+                for it in (True, False):
+                    yield {"case": "value", "array": p, "v": v, "dtype": dt, "integer_type": it}
+
+
+def run_values(inp):
+    a = utils.array_like(build(inp["array"], inp["v"]), dtype=None if inp["dtype"] is None else np.dtype(inp["dtype"]),
+                         integer_type=inp["integer_type"])
+    vals = np.unique(np.asarray(a).reshape(-1))
+    return {"res": [str(a.dtype), [float(x) for x in vals]]}
+
+
+def lean_values(inp, obs):
+    return [{"op": "c12.array_like_val", "major": MAJOR, "array": inp["array"], "v": Q.qs(F(inp["v"]).limit_denominator(1000)),
+             "dtype": inp["dtype"], "integer_type": inp["integer_type"]}]
+
+
+def judge_values(inp, obs, lr):
+    if "exc" in obs:
+        return {"expected": "array_like runs", "observed": obs, "tags": {"what": "value", "exc": obs["exc"]}, "property_failure": True}
+    r = lr[0]
+    if "err" in r:
+        return {"expected": "model answer", "observed": r, "tags": {"driver_err": r["err"], "what": "value"}}
+    md, mv = r["ok"][0], float(F(r["ok"][1]))
+    if obs["res"][0] != md or obs["res"][1] != [mv]:
+        return {"expected": {"model": [md, mv]}, "observed": obs["res"], "tags": {"what": "value", "pack": inp["array"]["k"], "dtype": inp["dtype"]}}
+    return None
+
+
 CLAUSES = [
     Clause("numpy_tables_corr", "corr", gen_numpy, run_numpy, judge_numpy, lean=lean_numpy, site="numpy.can_cast / asarray / result_type",
            budget={"quick": 1, "thorough": 1},
@@ -1032,6 +1074,9 @@ CLAUSES = [
     Clause("entry_dtype_corr", "corr", gen_entries, run_entries, judge_entries, lean=lean_entries, site="listed entry points",
            budget={"quick": 1, "thorough": 1},
            what="dtype produced by every listed entry point for every applicable real packaging vs entryDtype (the table real_input_floating quantifies over)"),
+    Clause("array_like_value_corr", "corr", gen_values, run_values, judge_values, lean=lean_values, site="utils.array_like",
+           budget={"quick": 1, "thorough": 1},
+           what="dtype AND stored value of array_like for every real packaging of the same number (7 values, explicit dtype None/int64/float32/float64, both integer_type) vs arrayLikeVal (truncation towards zero for int64)"),
     Clause("rescale_corr", "corr", gen_rescale, run_rescale, judge_rescale, lean=lean_rescale, site="hyperbolic rescaling formulas",
            budget={"quick": 60, "thorough": 1500},
            what="affine coords, normalize, cosh d, unit_tangent_towards, point_along, segment ideal endpoints (unordered), Poincare circle, apply: implementation on X and on lambda.X vs the model executed over Q"),
